@@ -154,6 +154,10 @@ impl<'a> IntoIterator for &'a BytesExpr {
 
 fn fixed_byte(input: &str, digits: usize, radix: u32) -> LexResult<'_, u8> {
     let (digits, rest) = take(input, digits)?;
+    // `from_str_radix` accepts a leading `+`, which is not a digit.
+    if digits.starts_with('+') {
+        return Err((LexErrorKind::ExpectedName("digit"), digits));
+    }
     match u8::from_str_radix(digits, radix) {
         Ok(b) => Ok((b, rest)),
         Err(err) => Err((LexErrorKind::ParseInt { err, radix }, digits)),
